@@ -68,10 +68,7 @@ theorem code1_continuous (dn nom up : ℝ) (hd : 0 < dn) (hn : 0 < nom) (hu : 0 
 theorem code1_fast_eq_slow (dn nom up a : ℝ) :
     fast1 realPrim dn nom up a = slow1 realPrim dn nom up a := by
   unfold fast1 slow1 sel
-  rw [absK_real]
-  by_cases h : (0 : ℝ) < a
-  · simp [h, abs_of_pos h]
-  · simp [h, abs_of_nonpos (not_lt.mp h)]
+  by_cases h : (0 : ℝ) < a <;> simp [h]
 
 /-! ## code 2 (after `fix: code2 …`) -/
 
